@@ -53,7 +53,17 @@ CHECKS["C17"] = dict(design="4 C17", technique="TLA+ spec (OutFile: buffered wri
 CHECKS["C18"] = dict(design="4 C18", technique="TLA+ spec (OutFile with poll steps) model-checked by TLC; real merges cancelled at every poll (verif hook), before the call, from write callbacks and asynchronously; outcomes validated by TLC (TraceOut)",
     note=OUT_NOTE,
     text="Same model with polls of the close channel (CancelSurfaces). Real merges (ordinary, synonym, rich, and without survivors) are cancelled at the j-th poll for every j the fault-free run performs (and one beyond), with the channel closed before the call, from inside the i-th write callback (validated against that run's own recorded step sequence, since the section order varies), by another goroutine after random delays (TLC accepts exactly: closed error and no file, or success with a complete file), and combined with a write fault. A merge program must begin with a poll.")
-HOOK_COMMITS = ["f76ac2a"]
+VEC_NOTE = "Native FAISS is absent from the sandbox: zapx is compiled with -tags vectors against a pure-Go engine double with the go-faiss API (fakefaiss/), which is part of the trusted base; nothing is claimed about FAISS itself or its index bytes. Vector ids are unique across the inputs of a merge (a segment is not merged with a copy of itself). Trusted: TLC."
+CHECKS["C14"] = dict(design="4 C14/C15", technique="TLA+ spec (FieldVecs/TopKOK in ZapData) + TLC walks over vector catalogue documents replayed + TLC trace validation, engine double",
+    note=VEC_NOTE,
+    text="Built and re-opened segments with vector fields (0..3 integer vectors per document, multi-vector fields, duplicates across documents, L2 / dot-product / cosine) are searched with queries taken from the data and random ones, k in {0,1,2,n,n+1}, exclusion bitmaps (nil, empty, random), filtered searches with eligible sets (empty, all, partial, overlapping the exclusion), wrong dimension, fields without vectors; TLC checks TopKOK on every answer (true scores computed from the logged batch, no excluded or ineligible document, at most k, exactly the k best modulo ties for exact indexes) and the num_vectors statistic.")
+CHECKS["C15"] = dict(design="4 C14/C15", technique="TLA+ spec (merge law over vectors) + TLC walks replayed + TLC trace validation, engine double",
+    note=VEC_NOTE,
+    text="As C14 for merged segments: Life.tla enumerates merges of vector segments under every drop set (fields present in some inputs only, inputs whose vectors are all deleted), random merge chains; TLC checks TopKOK and num_vectors of the re-opened merged segment against the survivors' content under the new numbering.")
+CHECKS["C16"] = dict(design="4 C16", technique="TLA+ spec (VecCache) model-checked by TLC; every edge of its state graph replayed on the real cache through the synchronous expiry hook with engine-side counters; concurrent searchers with the real monitor under the race detector",
+    note=VEC_NOTE + " Handles are closed before the segment; eviction is allowed but never required.",
+    text="VecCache.tla models cache entry (generation, references, ageing), handles with their own exclusion bitmaps, the engine's live set, asynchronous releases and segment close; TLC checks HandleSafe, ClosedOnce, NoLeak and RefsExact over all sequences of open(except, filtered) / search / close-handle / expiry tick / segment close up to 5 (quick) / 7 (thorough) steps for every pair of exclusion bitmaps, and emits every edge as a walk with the expected search results (TopKOK-checked). The harness replays the walks through InterpretVectorIndex / Search / SearchWithFilter / Close, VerifVecCacheTick and Segment.Close on in-memory and mmap segments, comparing results and the double's counters (used after release, released twice, live after close with a bounded wait) after every step; then 6 goroutines search concurrently with the monitor at 1 ms under -race.")
+HOOK_COMMITS = ["f76ac2a", "d66d9b6"]
 
 NA = {}
 for i in range(1, 21):
